@@ -454,6 +454,58 @@ pub fn run(env: &Env) -> PropRun {
         }
         parts.push(run_part(env, "long-strings", ls.len(), true, "5 string kinds x 7/8-bit introducer x 13 payload lengths 255 ... 100 000 x 4 payload classes / terminators, compared character by character with the reference parser", &|i| ls.get(i).map(|s| Case::new(1, 1, None).feed(s.clone()).with_nums(vec![1])), &js));
     }
+    // end-to-end leg: Vt must segment a long input exactly like its parser fed one character
+    // at a time - string kinds nested through C1 introducers, BEL inside non-OSC strings,
+    // text hidden between a BEL and the real terminator
+    {
+        let mut ev: Vec<String> = vec![];
+        for (i7, i8) in [("\x1b]", "\u{9d}"), ("\x1bP", "\u{90}"), ("\x1bX", "\u{98}"), ("\x1b^", "\u{9e}"), ("\x1b_", "\u{9f}")] {
+            for intro in [i7, i8] {
+                for n in [10usize, 600, 1100, 5000] {
+                    for inner in ["\u{98}", "\u{9e}", "\u{9f}", "\u{9d}", "\u{90}", "\x1bX", "\x1b_", "\x1b]", ""] {
+                        for term in ["\x1b\\", "\u{9c}", "\x18"] {
+                            let a: String = "ab".chars().cycle().take(n).collect();
+                            ev.push(format!("S{intro}{a}{inner}{a}\x07hidden{term}shown\r\n"));
+                        }
+                    }
+                }
+            }
+        }
+        let jv = |c: &Case, t: &mut Tally| -> Verdict {
+            let Some(Call::FeedStr(s)) = c.calls.first() else { return Verdict::Invalid("no input".into()) };
+            t.steps += 1;
+            t.nontrivial = true;
+            let mut whole = avt::Vt::builder().size(80, 4).build();
+            let _ = whole.feed_str(s);
+            let mut each = avt::Vt::builder().size(80, 4).build();
+            for ch in s.chars() {
+                each.feed(ch);
+            }
+            let (tw, te) = (whole.text(), each.text());
+            if tw != te || whole.cursor().col != each.cursor().col || whole.cursor().row != each.cursor().row {
+                return Verdict::fail("vt-segmentation", format!("Vt::feed_str of the whole input shows {:?}, the same characters through Vt::feed show {:?}", tw, te));
+            }
+            // and the reference parser agrees on what is printed
+            // (only for inputs that do nothing but print, CR and LF - the shrinker may turn a
+            // case into something else)
+            let mut r = RefParser::new();
+            let mut printed = String::new();
+            let mut only_text = true;
+            for ch in s.chars() {
+                match r.feed(ch).func {
+                    Some(RefFn::Print(p)) => printed.push(p),
+                    Some(RefFn::Cr) | Some(RefFn::Lf) | None => {}
+                    Some(_) => only_text = false,
+                }
+            }
+            let shown: String = te.join("");
+            if only_text && printed.chars().count() < 80 && shown != printed {
+                return Verdict::fail("vt-printed", format!("the screen shows {:?}, the reference parser prints {:?}", shown, printed));
+            }
+            Verdict::Pass
+        };
+        parts.push(run_part(env, "long-strings-vt", ev.len(), true, "5 string kinds x 7/8-bit introducer x 4 lengths (10 ... 5000 on each side) x 9 nested introducers / none x 3 terminators, with BEL and text before the terminator: Vt::feed_str vs Vt::feed vs the reference parser's printed characters", &|i| ev.get(i).map(|s| Case::new(80, 4, None).feed(s.clone())), &jv));
+    }
     let b = basis();
     let nb = b.len();
     parts.push(run_part(env, "memoryless-pairs", nb * nb, true, &format!("all ordered pairs of a {}-sequence basis (stale parameters, sub-parameters, intermediates, aborted and string sequences)", nb), &|i| Some(Case::new(1, 1, None).feed(b[i / nb].clone()).feed(b[i % nb].clone())), &jm));
